@@ -83,6 +83,15 @@ Documented(l, style) ==
     [] l.owner \in Bare -> FALSE
     [] OTHER -> TRUE
 ToSet(seq) == { seq[j] : j \in 1..Len(seq) }
+(* Trace of the real cache during a whole analysis: events <<qname asked for, owner of the docstring that was returned>>.   *)
+(* Replaying the events through Consult, the machine's cached docstring is always the one of the name asked for; the        *)
+(* implementation must have returned that one (or nothing, when the element has no docstring).                              *)
+CacheBad(evs) ==
+  { [property |-> "C13", clause |-> "Transparent",
+     sig |-> "cache-returned-foreign-docstring:" \o (IF j > 1 /\ evs[j][2] = evs[j - 1][1] THEN "of-previous-lookup" ELSE "other"),
+     expected |-> evs[j][1], observed |-> evs[j][2]]
+    : j \in { j \in 1..Len(evs) : evs[j][2] # evs[j][1] /\ evs[j][2] # "@none" } }
+JudgeCache(obs) == CacheBad(obs.events)
 Judge(obs) ==
   UNION { LET l == obs.steps[j].l
               toks == ToSet(obs.steps[j].toks)
